@@ -205,6 +205,25 @@ func linOfX(v ssa.Value, sym symNamer, phiRes func(*ssa.Phi) ssa.Value, ov func(
 				}
 			case token.QUO, token.REM, token.SHL, token.SHR, token.AND, token.OR, token.XOR:
 				lx, ly := rec(x.X, d+1), rec(x.Y, d+1)
+				if isUnsignedType(x.X.Type()) && lx.OK && ly.OK {
+					// on unsigned values x >> k is x / 2^k and x & (2^k - 1) is x % 2^k: one name for both spellings
+					if x.Op == token.SHR && len(ly.Coef) == 0 && ly.K >= 1 && ly.K <= 62 {
+						y2 := *x
+						y2.Op = token.QUO
+						x = &y2
+						ly = linConst(int64(1) << uint(ly.K))
+					} else if x.Op == token.AND {
+						if len(lx.Coef) == 0 && len(ly.Coef) > 0 {
+							lx, ly = ly, lx
+						}
+						if len(ly.Coef) == 0 && ly.K > 0 && (ly.K+1)&ly.K == 0 {
+							y2 := *x
+							y2.Op = token.REM
+							x = &y2
+							ly = linConst(ly.K + 1)
+						}
+					}
+				}
 				if x.Op == token.QUO && lx.OK && ly.OK && len(ly.Coef) == 0 && ly.K > 1 {
 					// (c*q) / c with q itself a quotient by c (n - n%c = c*(n/c)): exact
 					nx := normRem(lx)
